@@ -7,7 +7,7 @@ for c in $ids; do
   C=$(echo $c | tr a-z A-Z)
   for n in n1 n2 n3; do
     [ -f neutral/$c/$n.diff ] || continue
-    r=$(tools/muttest.py $C --patch neutral/$c/$n.diff 2>&1 | grep "MUTANT\|Error\|MUTATION-ERROR\|key=" | tr '\n' ' ' | cut -c1-300)
+    r=$(tools/muttest.py $C --patch neutral/$c/$n.diff 2>&1 | grep "MUTANT\|Error\|MUTATION-ERROR\|  key=" | tac | tr '\n' ' ' | cut -c1-300)
     echo "$c $n $r"
   done
 done
